@@ -372,6 +372,13 @@ def rule_c(ctx):
             'an element taken from the queue can be delivered more than once')
 
 
+def rule_f(ctx):
+    """The library's stream source hands every credited element on, once (rules/sources.py)."""
+    from .sources import rule_source, rule_small_sources
+    rule_source(ctx, 'C06.e')
+    rule_small_sources(ctx, 'C06.e')
+
+
 def rule_e(ctx):
     """Credit is really forwarded: REQUEST_N / the initial request-n reach the local producer's request(), and a local
     request(n) puts a REQUEST_N frame into the send queue (C06.a decides which n; this decides that it happens)."""
@@ -390,4 +397,4 @@ def rule_d(ctx):
     rule_gate_scope(ctx)
 
 
-RULES = [('C06.a', rule_a), ('C06.b', rule_b), ('C06.c', rule_c), ('C06.d', rule_e), ('C05.a+C05.b+C14.f', rule_d)]
+RULES = [('C06.a', rule_a), ('C06.b', rule_b), ('C06.c', rule_c), ('C06.d', rule_e), ('C06.e', rule_f), ('C05.a+C05.b+C14.f', rule_d)]
